@@ -576,7 +576,8 @@ def _loaders(R, B, k, only):
         pfh = os.path.join(d, f"allh_{ob}.pairs")
         _write_lines(pfh, [("r%d" % q, r[0], r[1] + ob, r[2], r[3] + ob, "+", "-") for q, r in enumerate(recs)],
                      header=("## pairs format v1.0", "#chromsize: %s 1" % names[0], "#columns: readID chr1 pos1 chr2 pos2 strand1 strand2"))
-        for status, symm in (("unique", True), ("duplex", True), ("unique", False)):
+        # ("duplex", square storage): the copy status is documented for symmetric-upper storage only - with -N every record counts
+        for status, symm in (("unique", True), ("duplex", True), ("unique", False), ("duplex", False)):
             for cs in (5, 10 ** 6):
                 kk += 1
                 inner = {"table": tname, "loader": "cload-pairs", "one_based": ob, "status": status, "symm": symm, "chunksize": cs}
@@ -632,7 +633,7 @@ def _loaders(R, B, k, only):
     # ---- load coo / bg2 ----  (pre-binned: one record per pixel of the full grid, value = distinct)
     for fmt in ("coo", "bg2"):
         for ob in (0, 1):
-            for status, symm in (("unique", True), ("duplex", True), ("unique", False)):
+            for status, symm in (("unique", True), ("duplex", True), ("unique", False), ("duplex", False)):
                 for cs in (3, 10 ** 6):
                     kk += 1
                     inner = {"table": tname, "loader": "load-" + fmt, "one_based": ob, "status": status, "symm": symm, "chunksize": cs}
@@ -642,7 +643,7 @@ def _loaders(R, B, k, only):
                     R.ev(1, 1)
                     R.add("transitions")
                     R.cls("loader:load-" + fmt)
-                    if status == "duplex":
+                    if status == "duplex" or not symm:
                         cellsrc = [(i, j) for i in range(n) for j in range(n)]
                     elif symm:
                         cellsrc = [(i, j) if (i + j) % 2 == 0 else (j, i) for i in range(n) for j in range(i, n)]  # mixed orientation
